@@ -117,6 +117,12 @@ Definition pc_idle (s : st) : bool := match pc s with WIdle => true | _ => false
 Definition unsp (s : st) (u : uid) : nat :=
   match pc s with WSpawn v => if Nat.eqb v u then 1 else 0 | _ => 0 end.
 
+Definition add_known (u : uid) (l : list uid) : list uid :=
+  if existsb (Nat.eqb u) l then l else u :: l.
+
+(* the watcher is inside `await scheduler.spawn(...)`, the job not yet queued *)
+Definition in_spawn (p : wpc) : bool := match p with WSpawn _ => true | _ => false end.
+
 Definition workers_live (s : st) : bool := negb (phase_eqb (ph s) PClosed).
 
 (* ---------------- labels ---------------- *)
@@ -175,7 +181,7 @@ Definition step (s : st) (l : label) : option st :=
               (* NB: a plain assignment streams[key] = Stream(...): whatever was there is overwritten *)
               Some (mkS (upd (obj s) u (mkU (Some ([Ev e], true)) (npend (o u)) (nwait (o u)) (procs (o u))
                                             (arrived (o u) ++ [e]) (processed (o u)) (intact (o u))))
-                        (WSpawn u) (ph s) (pending s) (active s) (exiting s) (limit s) (u :: known s)
+                        (WSpawn u) (ph s) (pending s) (active s) (exiting s) (limit s) (add_known u (known s))
                         (timedout s) (cancel_pc s) (werr s))
             else None
         | _ => None
@@ -299,6 +305,25 @@ Definition step (s : st) (l : label) : option st :=
       else None
   end.
 
+(* what the system does next by itself: no new arrival, no cancellation, no failure.  A timeout counts
+   only for an idle worker (empty backlog) — that one does fire after idle_timeout of real time. *)
+Definition progress_label (s : st) (l : label) : bool :=
+  match l with
+  | LArriveNew2 _ _ | LSpawn _ | LStart _ | LGet _ _ _ | LGetEOS _ | LEnd _ _ | LExit => true
+  | LTimeout u => match stream (obj s u) with Some ([], _) => true | _ => false end
+  | _ => false
+  end.
+
+Definition limit_positive (s : st) : bool := match limit s with Some O => false | _ => true end.
+
+(* a variant for the progress labels: how much work is left if nothing new arrives *)
+Definition uweight (o : ust) : nat := 3 * List.length (evs (backlog o)) + 2 * List.length (procs o).
+Fixpoint usum (f : uid -> ust) (l : list uid) : nat :=
+  match l with [] => 0 | u :: l' => uweight (f u) + usum f l' end.
+Definition pcweight (p : wpc) : nat := match p with WIdle => 0 | WInsert _ _ => 8 | WSpawn _ => 4 end.
+Definition work_left (s : st) : nat :=
+  pcweight (pc s) + usum (obj s) (known s) + 3 * List.length (pending s) + 2 * List.length (active s) + exiting s.
+
 Fixpoint run (s : st) (tr : list label) : option st :=
   match tr with
   | [] => Some s
@@ -378,7 +403,24 @@ Definition snap_ok (s : st) (sn : snap) : bool :=
   && nats_eqb (pending s) (sn_pending sn)
   && Nat.eqb (running s) (sn_running sn).
 
-Inductive titem := TL (l : label) | TS (sn : snap).
+(* Quiescence of the implementation (the stepped loop has nothing ready and no timer due) must be quiescence
+   of the model: no internal step is enabled for the uids of the scenario.  `final`: also no idle worker and
+   no call in flight are left (after the epilogue let every call return and every timer fire). *)
+Definition enabled (s : st) (l : label) : bool := match step s l with Some _ => true | None => false end.
+
+Definition can_get (s : st) (u : uid) : bool :=
+  workers_live s && Nat.ltb 0 (nwait (obj s u)) &&
+  match stream (obj s u) with Some (Ev _ :: _, _) => true | _ => false end.
+
+Definition quiet (s : st) (us : list uid) (final : bool) : bool :=
+  negb (enabled s LExit)
+  && match pc s with WIdle => true | _ => negb (phase_eqb (ph s) PAlive) end
+  && forallb (fun u => negb (enabled s (LSpawn u)) && negb (enabled s (LStart u)) && negb (enabled s (LGetEOS u))
+                       && negb (can_get s u)
+                       && (negb final || (Nat.eqb (nwait (obj s u)) 0 && match procs (obj s u) with [] => true | _ => false end)))
+             us.
+
+Inductive titem := TL (l : label) | TS (sn : snap) | TQ (us : list uid) (final : bool).
 
 (* None = whole trace accepted; Some i = rejected at position i *)
 Fixpoint accept_from (i : nat) (s : st) (t : list titem) : option nat :=
@@ -386,6 +428,7 @@ Fixpoint accept_from (i : nat) (s : st) (t : list titem) : option nat :=
   | [] => None
   | TL l :: t' => match step s l with Some s' => accept_from (S i) s' t' | None => Some i end
   | TS sn :: t' => if snap_ok s sn then accept_from (S i) s t' else Some i
+  | TQ us final :: t' => if quiet s us final then accept_from (S i) s t' else Some i
   end.
 
 Definition accepts (lim : option nat) (t : list titem) : bool :=
@@ -396,6 +439,7 @@ Fixpoint labels_of (t : list titem) : list label :=
   | [] => []
   | TL l :: t' => l :: labels_of t'
   | TS _ :: t' => labels_of t'
+  | TQ _ _ :: t' => labels_of t'
   end.
 
 (* final ghost histories of the model for the uids of a universe: compared with what the harness's
